@@ -1133,6 +1133,20 @@ private:
       {
         try { c.listenerReady->set_value(false); } catch (...) {}
       }
+      if (c.t == Cmd::Connect)
+      {
+        // connect() already returned this session id to the application (the
+        // command was queued after the process() above, before the queue closed).
+        // The connection will never be attempted: report it closed, or the id
+        // would get neither a connect nor a close callback.
+        decltype(_cbs.onClose) closeCb;
+        { std::lock_guard<std::mutex> g(_cbMutex); closeCb = _cbs.onClose; }
+        if (closeCb)
+        {
+          closeCb(c.c.sid, TransportErrorInfo{TransportError::ShuttingDown,
+                                              "connect: transport shutting down", 0, 0});
+        }
+      }
     }
     if (_epollFd >= 0)
     {
